@@ -131,7 +131,7 @@ class C08(CheckBase):
                            'expires': rng.choice([None, 1, 2, maxdur / 2.0, maxdur, maxdur * 3, 3600]),
                            'end_to': rng.choice(['none', 'none', 'own', 'other']),
                            'accept': rng.choice([None, 'gzip', 'x-lz4, gzip', 'gzip;q=0', 'identity', '*', '']),
-                           'ref': rng.random() < 0.4})
+                           'ref': rng.random() < 0.4, 'sep': rng.choice([' ', ' ', ' ', '\n', '\t', '  ', '\n    '])})
             elif k in ('tx', 'tx_unsub'):
                 tx = g.gen_op(kinds=['metric', 'alert', 'component', 'operational', 'context', 'descr', 'rt'])
                 if tx is None:
@@ -279,7 +279,7 @@ class C08(CheckBase):
                     eref.text = f'e{kk}'
                 the_path = set_path if op.get('svc') == 'Set' else sub_path
                 body = peers.mk_subscribe(base + the_path, ep.url(f'/n{kk}'), sub.actions, op['expires'], end_to, mid(),
-                                          nref, eref if end_to else None)
+                                          nref, eref if end_to else None, sep=op.get('sep', ' '))
                 hdr = {} if op['accept'] is None else {'Accept-Encoding': op['accept']}
                 t_req = s.now
                 r = peers.SoapResponse(clients[owner].post(the_path, body, hdr))
